@@ -27,6 +27,7 @@ func C14(r *core.Run) {
 	optionOrder(r)
 	optionOwnLine(r)
 	packageListingByDirectory(r)
+	exportsOfThisPackageOnly(r) // which file of a package declares a name does not depend on the listing order
 }
 
 // optionOrder (R-DET/N3): Builder.OptionsFor collects the options of an
